@@ -53,7 +53,7 @@ def build_anonymizer(nc, opts, feats, undo=False):
 
 def _benign_ok(tok, opts):
     lt = tok.lower()
-    if any(w.lower() in lt for w in opts["words"]):
+    if any(w and w.lower() in lt for w in opts["words"]):
         return False
     runs = re.findall(r"[0-9]+", tok)
     return not any(r in opts["asns"] for r in runs)
@@ -76,7 +76,7 @@ def gen_plain_line(rng, opts):
             v = rng.getrandbits(128) >> rng.choice([0, 64, 96])
             toks.append([L.v6_text(rng, v)[0] + rng.choice(["", "/64"]), "v6"])
         elif r < 0.88:
-            w = rng.choice(opts["words"])
+            w = rng.choice([x for x in opts["words"] if x])
             w = rng.choice([w, w.upper(), w.capitalize()])
             toks.append([rng.choice(["", "rtr-", "(", "un"]) + w + rng.choice(["", "-gw", ")", "01"]), "word"])
         elif r < 0.96:
